@@ -44,13 +44,22 @@ VARIABLES acc, val, wq, rec, rel,          \* live content
           unex,                            \* pending accounts of a copy whose emptiness its Finalise will not examine
           nod,                             \* pending accounts of a copy that are NOT in its stateObjectsDirty (as coded)
           zomb,                            \* accounts stored in the state trie as EMPTY accounts (not content: getters show nothing)
+          \* the node database: state.Database = a cache (trie.Database) over a disk database.  Commit puts nodes and blobs into
+          \* the cache; only TrieDB().Commit(root) of the three roots ("Flush", what WriteBlockWithState does) writes what is
+          \* REACHABLE from those roots to disk; a restart sees the disk only.
+          dsk,                             \* [tr: content of the tries of the last flushed roots, blobs: blobs on disk]
+          cacc,                            \* accounts as of the last Commit (what its state root references)
+          fl,                              \* the last committed roots are flushed
+          garb,                            \* an older, never flushed commit exists in the cache
+          fo,                              \* a Flush happened in this behaviour
           clean,                           \* "root" | "commit" right after such a point, "" after any write
           copyOk,                          \* the copy taken by the last step can be read and equals the original
           failed, hist
 live  == <<acc, val, wq, rec, rel>>
 tries == <<tacc, tval, twq, trec, trel>>
 book  == <<dAcc, oDirty, dCode, dDl, dVal, dRec, dRel, jd, unex, nod, zomb>>
-vars  == <<live, tries, blobs, book, clean, copyOk, failed, hist>>
+node  == <<dsk, cacc, fl, garb, fo>>
+vars  == <<live, tries, blobs, book, node, clean, copyOk, failed, hist>>
 
 Fixed(x) == x \in Fix
 
@@ -58,22 +67,39 @@ ZeroAcc == [bal |-> 0, nonce |-> 0, code |-> 0, s1 |-> 0, s2 |-> 0, dbal |-> 0, 
 NoVal == [ex |-> FALSE, st |-> 0, dl |-> 0]
 NoRec == [ex |-> FALSE, val |-> 0, tx |-> <<>>]
 
-Init == /\ acc = [a \in Accts |-> ZeroAcc] /\ val = [v \in Vals |-> NoVal] /\ wq = <<>>
+\* Alphabets "disk" and "deleg2" start from a populated state; the prelude that produces it is the beginning of hist, so the
+\* driver and the conformance spec (from the plain initial state) simply replay it.
+\*   disk  : validator 1 created, transaction finalised
+\*   deleg2: both validators created, account 1 delegating 7 LU to each, transaction finalised
+Seeded == Alpha \in {"disk", "deleg2"}
+POp(name, a, v, d) == [op |-> name, a |-> a, v |-> v, d |-> d, s |-> 0, r |-> 0, h |-> 0]
+Prelude == IF Alpha = "disk" THEN <<POp("CreateValidator", 0, 1, 15), POp("Finalise", 0, 0, 0)>>
+           ELSE <<POp("CreateValidator", 0, 1, 15), POp("CreateValidator", 0, 2, 15), POp("Delegate", 1, 1, 7), POp("Delegate", 1, 2, 7),
+                  POp("Finalise", 0, 0, 0)>>
+SeedAcc == [a \in Accts |-> IF Alpha = "deleg2" /\ a = 1 THEN [ZeroAcc EXCEPT !.dbal = 14, !.to = {1, 2}] ELSE ZeroAcc]
+SeedVal == [v \in Vals |-> IF Alpha = "deleg2" THEN [ex |-> TRUE, st |-> 15, dl |-> 7]
+                           ELSE IF Alpha = "disk" /\ v = 1 THEN [ex |-> TRUE, st |-> 15, dl |-> 0] ELSE NoVal]
+Init == /\ acc = SeedAcc /\ val = SeedVal /\ wq = <<>>
         /\ rec = [k \in RecKeys |-> NoRec] /\ rel = {}
         /\ tacc = [a \in Accts |-> ZeroAcc] /\ tval = [v \in Vals |-> NoVal] /\ twq = <<>>
         /\ trec = [k \in RecKeys |-> NoRec] /\ trel = {}
         /\ blobs = [code |-> {}, dl |-> {}, st |-> {}]
-        /\ dAcc = {} /\ oDirty = {} /\ dCode = {} /\ dDl = {} /\ dVal = {} /\ dRec = {} /\ dRel = FALSE /\ jd = {} /\ unex = {} /\ nod = {} /\ zomb = {}
-        /\ clean = "commit" /\ copyOk = TRUE /\ failed = FALSE /\ hist = <<>>
+        /\ dAcc = (IF Alpha = "deleg2" THEN {1} ELSE {}) /\ oDirty = {} /\ dCode = {} /\ dDl = (IF Alpha = "deleg2" THEN {1} ELSE {})
+        /\ dVal = { v \in Vals : SeedVal[v].ex } /\ dRec = {} /\ dRel = FALSE /\ jd = {} /\ unex = {} /\ nod = {} /\ zomb = {}
+        /\ dsk = [tr |-> <<[a \in Accts |-> ZeroAcc], [v \in Vals |-> NoVal], <<>>, [k \in RecKeys |-> NoRec], {}>>,
+                  blobs |-> [code |-> {}, dl |-> {}, st |-> {}]]
+        /\ cacc = tacc /\ fl = TRUE /\ garb = FALSE /\ fo = FALSE
+        /\ clean = (IF Seeded THEN "" ELSE "commit") /\ copyOk = TRUE /\ failed = FALSE
+        /\ hist = (IF Seeded THEN Prelude ELSE <<>>)
 
 Rec(name, a, v, d, s, r, h) == [op |-> name, a |-> a, v |-> v, d |-> d, s |-> s, r |-> r, h |-> h]
 \* generated behaviours start with a write (control points on the untouched starting state say nothing)
-ControlOps == {"Root", "Commit", "Reload", "Copy", "CopySwap", "Finalise"}
+ControlOps == {"Root", "Commit", "Reload", "Copy", "CopySwap", "Finalise", "Flush", "GC", "Restart"}
 Tick(r) == /\ Len(hist) < MaxOps /\ ~failed
            /\ (GenMode = "leaf" /\ Len(hist) = 0) => r.op \notin ControlOps
            /\ hist' = Append(hist, r)
 
-Write == clean' = "" /\ copyOk' = TRUE /\ UNCHANGED <<tries, blobs, failed, unex, zomb>>
+Write == clean' = "" /\ copyOk' = TRUE /\ UNCHANGED <<tries, blobs, failed, unex, zomb, node>>
 Touch(a) == nod' = nod \ {a}      \* a journal entry: the next Finalise puts the object into stateObjectsDirty again
 
 \* ---------------------------------------------------------------- accounts
@@ -155,7 +181,7 @@ Finalise ==
    /\ acc' = NormAcc(acc, jd)
    /\ jd' = {}
    /\ clean' = "" /\ copyOk' = TRUE
-   /\ UNCHANGED <<val, wq, rec, rel, tries, blobs, dAcc, oDirty, dCode, dDl, dVal, dRec, dRel, failed, unex, nod, zomb>>
+   /\ UNCHANGED <<val, wq, rec, rel, tries, blobs, dAcc, oDirty, dCode, dDl, dVal, dRec, dRel, failed, unex, nod, zomb, node>>
 
 \* the three tries after IntermediateRoot
 RootEffect ==
@@ -177,7 +203,7 @@ Root ==
    /\ RootEffect
    /\ oDirty' = oDirty \cup (dAcc \ nod) /\ nod' = {}
    /\ clean' = "root" /\ copyOk' = TRUE
-   /\ UNCHANGED <<blobs, dCode, dDl, failed>>
+   /\ UNCHANGED <<blobs, dCode, dDl, failed, node>>
 
 \* Commit: code and delegation-list blobs of the objects in stateObjectsDirty that are not deleted
 CommitEffect ==
@@ -188,6 +214,7 @@ CommitEffect ==
                    st   |-> blobs.st \cup { <<acc'[a].s1, acc'[a].s2>> : a \in W }]      \* CommitTrie of the object
       /\ dCode' = dCode \ W /\ dDl' = dDl \ W
    /\ oDirty' = {} /\ nod' = {}
+   /\ cacc' = tacc' /\ fl' = FALSE /\ garb' = (garb \/ ~fl) /\ UNCHANGED <<dsk, fo>>
 
 \* what state.New(roots) can read
 Readable == \A a \in Accts : /\ (tacc[a].code = 0 \/ tacc[a].code \in blobs.code)
@@ -207,6 +234,46 @@ Reload ==
    /\ CommitEffect
    /\ clean' = "commit" /\ copyOk' = TRUE
    /\ failed' = ~ReadableP
+
+\* ---------------------------------------------------------------- node database: flush, garbage collection, restart
+\* blobs referenced by the account leaves A (Commit's leaf callback References code, storage root and delegation list) that
+\* the database B can supply
+Reach(A, B) == [code |-> { A[a].code : a \in Accts } \cap B.code,
+                dl   |-> { A[a].to : a \in Accts } \cap B.dl,
+                st   |-> { <<A[a].s1, A[a].s2>> : a \in Accts } \cap B.st]
+Both(B1, B2) == [code |-> B1.code \cup B2.code, dl |-> B1.dl \cup B2.dl, st |-> B1.st \cup B2.st]
+\* TrieDB().Commit(root, false) of the three roots of the last Commit: everything reachable from them goes to disk
+Flush ==
+   /\ clean = "commit" /\ ~fl
+   /\ Tick(Rec("Flush", 0, 0, 0, 0, 0, 0))
+   /\ dsk' = [tr |-> <<tacc, tval, twq, trec, trel>>, blobs |-> Both(dsk.blobs, Reach(tacc, blobs))]
+   /\ fl' = TRUE /\ fo' = TRUE
+   /\ UNCHANGED <<live, tries, blobs, book, cacc, garb, clean, copyOk, failed>>
+\* Dereference of the older, never flushed roots, then Cap(0): what only they referenced leaves the cache, the rest of the
+\* cache is written out
+GC ==
+   /\ garb
+   /\ Tick(Rec("GC", 0, 0, 0, 0, 0, 0))
+   /\ blobs' = Both(Reach(cacc, blobs), dsk.blobs)
+   /\ dsk' = [dsk EXCEPT !.blobs = Both(@, blobs')]
+   /\ garb' = FALSE
+   /\ UNCHANGED <<live, tries, book, cacc, fl, fo, clean, copyOk, failed>>
+\* a restart: state.New(last flushed roots) over a fresh state.Database (empty cache) on the same disk
+DiskReadable == \A a \in Accts : LET r == dsk.tr[1][a] IN
+                   /\ (r.code = 0 \/ r.code \in dsk.blobs.code)
+                   /\ (r.to = {} \/ r.to \in dsk.blobs.dl)
+                   /\ ((r.s1 = 0 /\ r.s2 = 0) \/ <<r.s1, r.s2>> \in dsk.blobs.st)
+Restart ==
+   /\ fo
+   /\ Tick(Rec("Restart", 0, 0, 0, 0, 0, 0))
+   /\ acc' = dsk.tr[1] /\ val' = dsk.tr[2] /\ wq' = dsk.tr[3] /\ rec' = dsk.tr[4] /\ rel' = dsk.tr[5]
+   /\ tacc' = dsk.tr[1] /\ tval' = dsk.tr[2] /\ twq' = dsk.tr[3] /\ trec' = dsk.tr[4] /\ trel' = dsk.tr[5]
+   /\ blobs' = dsk.blobs
+   /\ dAcc' = {} /\ oDirty' = {} /\ dCode' = {} /\ dDl' = {} /\ dVal' = {} /\ dRec' = {} /\ dRel' = FALSE
+   /\ jd' = {} /\ unex' = {} /\ nod' = {} /\ UNCHANGED zomb
+   /\ cacc' = dsk.tr[1] /\ fl' = TRUE /\ garb' = FALSE /\ UNCHANGED <<dsk, fo>>
+   /\ clean' = "commit" /\ copyOk' = TRUE
+   /\ failed' = ~DiskReadable
 
 \* ---------------------------------------------------------------- copy
 \* accounts whose object is deep-copied (the others are read from the copied trie on demand)
@@ -234,7 +301,7 @@ CopyStep(name) ==
    \* dirty loop, so they are not in the copy's stateObjectsDirty
    /\ nod' = IF name = "CopySwap" /\ ~Fixed("copydirty") THEN nod \cup (dAcc \ jd) ELSE nod
    /\ oDirty' = IF name = "CopySwap" /\ ~Fixed("copydirty") THEN oDirty \ (dAcc \ jd) ELSE oDirty
-   /\ UNCHANGED <<val, wq, rec, rel, tries, blobs, dAcc, dCode, dVal, dRec, dRel, clean, zomb>>
+   /\ UNCHANGED <<val, wq, rec, rel, tries, blobs, dAcc, dCode, dVal, dRec, dRel, clean, zomb, node>>
 
 \* ---------------------------------------------------------------- next-state relations
 Bounded == /\ \A a \in Accts : acc[a].bal <= 6
@@ -253,6 +320,12 @@ NextRecs ==      \* withdraw queue, staking records, pending relationships
    \/ AddWithdraw(1) \/ AddWithdraw(2) \/ RemoveWithdraw(1)
    \/ AddRecord(0, 1, 1, 9) \/ AddRecord(0, 1, 2, 4) \/ AddRel(1, 1) \/ AddRel(1, 2)
    \/ Control
+NextDeleg2 ==    \* a delegator with two delegations: full withdrawals and re-delegations around copies (the delegator's list is shared)
+   \/ \E v \in Vals : Delegate(v, -7) \/ Delegate(v, 7)
+   \/ Control \/ CopyStep("CopySwap")
+NextDisk ==      \* what reaches the disk: code, storage, delegation list of an account with and without code, validator and staking tries
+   \/ SetCode(1, 1) \/ SetState(1, 1, 5) \/ Delegate(1, 7) \/ AddRecord(0, 1, 1, 9)
+   \/ Commit \/ Flush \/ GC \/ Restart
 NextRich ==
    \/ \E a \in Accts : \/ \E d \in {1, 2} : AddBalance(a, d) \/ SubBalance(a, d)
                        \/ \E n \in {1, 2} : SetNonce(a, n) \/ SetCode(a, n)
@@ -264,10 +337,10 @@ NextRich ==
    \/ \E i \in {1, 2} : RemoveWithdraw(i)
    \/ \E a \in {0, 1}, v \in Vals, h \in {0, 1, 2}, d \in {-1, 4, 9} : (h > 0 \/ d >= 0) /\ AddRecord(a, v, h, d)
    \/ \E a \in Accts, v \in Vals : AddRel(a, v)
-   \/ Control \/ Reload \/ Finalise \/ CopyStep("CopySwap")
+   \/ Control \/ Reload \/ Finalise \/ CopyStep("CopySwap") \/ Flush \/ GC \/ Restart
 
 Next == /\ Bounded
-        /\ CASE Alpha = "acct" -> NextAcct [] Alpha = "macct" -> (NextAcct \/ Reload) [] Alpha = "val" -> NextVal [] Alpha = "recs" -> NextRecs [] OTHER -> NextRich
+        /\ CASE Alpha = "acct" -> NextAcct [] Alpha = "macct" -> (NextAcct \/ Reload) [] Alpha = "val" -> NextVal [] Alpha = "recs" -> NextRecs [] Alpha = "disk" -> NextDisk [] Alpha = "deleg2" -> NextDeleg2 [] OTHER -> NextRich
 Spec == Init /\ [][Next]_vars
 
 \* ---------------------------------------------------------------- property layer
@@ -278,8 +351,10 @@ TriesHoldContent == (clean # "" => (tries = live /\ zomb = {})) \/ Cex("TriesHol
 ReopenEqualsLive == (clean = "commit" => (tries = live /\ Readable)) \/ Cex("ReopenEqualsLive")
 \* "a copy of a state is equal to ... the original"
 CopyEqualsOriginal == copyOk \/ Cex("CopyEqualsOriginal")
+\* "committing and reopening loses nothing", across a restart: once the committed roots are flushed the disk alone yields them
+DiskHoldsCommitted == ((fl /\ clean = "commit") => (dsk.tr = live /\ DiskReadable)) \/ Cex("DiskHoldsCommitted")
 
 \* ---------------------------------------------------------------- generation
 Leaf == (GenMode = "leaf" /\ (Len(hist) = MaxOps \/ failed)) => PrintT("@@J " \o ToJson([kind |-> "B", h |-> hist]))
-View == <<live, tries, blobs, book, clean, copyOk, failed>>
+View == <<live, tries, blobs, book, node, clean, copyOk, failed>>
 =============================================================================
